@@ -187,6 +187,14 @@ func (cs *caseState) onStep(m *c12.Machine, s *c12.Step) bool {
 	if s.LIHAfter > cs.maxLIH {
 		cs.maxLIH = s.LIHAfter
 	}
+	// BlockChain.ReorganizeChain does not publish ETBlockProcessed: re-sample the
+	// recorded height at the end of every call (it is what the node's state holds now)
+	mo.mu.Lock()
+	mo.recorded, mo.pow, mo.detached, mo.curDepth = s.LIHAfter, s.PowAfter, false, 0
+	if s.LIHAfter > mo.maxEver {
+		mo.maxEver = s.LIHAfter
+	}
+	mo.mu.Unlock()
 	if s.PowAfter {
 		cs.sawPow = true
 	} else if cs.sawPow {
